@@ -64,10 +64,7 @@ Theorem C18_hypotheses_satisfiable :
   keyspace_of (calc_keyspace T_r9 18 10000000000 false false []) 10 = Some 2%N /\
   ks_done (calc_keyspace T_r9 18 0 false false []) = [(1, 1%N)] /\
   ks_stopped (calc_keyspace T_r9 18 0 false false []) = true.
-Proof.
-  split; [apply T_r9_wf|]. split; [apply T_r9_wf|]. split; [exact T_r9_closed|]. split; [constructor|].
-  split; [vm_compute; reflexivity|]. exact ol_cutoff_example.
-Qed.
+Proof. exact ol_c18_satisfiable. Qed.
 
 Print Assumptions C18_rec_keyspace_counts.
 Print Assumptions C18_keyspace.
